@@ -1312,14 +1312,60 @@ func (p *GoProg) propagateNewLocals() {
 					}
 					return false
 				}
+				// what a callee can write through a value of type t: 0 nothing, 1 only elements of basic type (a []byte, a
+				// *uint64: no slice header, pointer or struct field can change through it), 2 anything
+				var reach func(t types.Type, depth int) int
+				reach = func(t types.Type, depth int) int {
+					if t == nil || depth > 6 {
+						return 2
+					}
+					switch u := t.Underlying().(type) {
+					case *types.Basic:
+						if u.Kind() == types.UnsafePointer {
+							return 2
+						}
+						return 0
+					case *types.Slice:
+						if reach(u.Elem(), depth+1) == 0 {
+							return 1
+						}
+						return 2
+					case *types.Pointer:
+						if reach(u.Elem(), depth+1) == 0 {
+							return 1
+						}
+						return 2
+					case *types.Array:
+						return reach(u.Elem(), depth+1) // an array value is copied
+					case *types.Struct:
+						m := 0
+						for k := 0; k < u.NumFields(); k++ {
+							if r := reach(u.Field(k).Type(), depth+1); r > m {
+								m = r
+							}
+						}
+						return m // a struct value is copied; what its fields refer to is reachable
+					}
+					return 2
+				}
+				_ = refType
+				elemOnly := false
 				for _, a := range x.Args {
-					if refType(p.Info.TypeOf(a)) {
+					switch reach(p.Info.TypeOf(a), 0) {
+					case 1:
+						elemOnly = true
+					case 2:
 						mayWrite = true
 					}
 				}
 				if sel, ok := ast.Unparen(x.Fun).(*ast.SelectorExpr); ok {
-					if _, isSel := p.Info.Selections[sel]; isSel && refType(p.Info.TypeOf(sel.X)) {
-						mayWrite = true
+					if _, isSel := p.Info.Selections[sel]; isSel {
+						switch reach(p.Info.TypeOf(sel.X), 0) {
+						case 1:
+							elemOnly = true
+						case 2:
+							mayWrite = true
+						}
 					}
 				} else if _, isID := ast.Unparen(x.Fun).(*ast.Ident); !isID {
 					mayWrite = true
@@ -1339,6 +1385,8 @@ func (p *GoProg) propagateNewLocals() {
 				}
 				if mayWrite {
 					pathAsg["<call>"] = append(pathAsg["<call>"], asg{x.Pos(), x.End()})
+				} else if elemOnly {
+					pathAsg["<callelem>"] = append(pathAsg["<callelem>"], asg{x.Pos(), x.End()})
 				}
 			}
 			return true
@@ -1380,6 +1428,7 @@ func (p *GoProg) propagateNewLocals() {
 			var readObjs []types.Object
 			var readPaths []string
 			readsMem := false
+			readsElem := false
 			ast.Inspect(rhs, func(m ast.Node) bool {
 				switch x := m.(type) {
 				case *ast.Ident:
@@ -1391,6 +1440,7 @@ func (p *GoProg) propagateNewLocals() {
 					readsMem = true
 				case *ast.IndexExpr, *ast.StarExpr:
 					readsMem = true // (a slice expression only computes a new header)
+					readsElem = true
 				}
 				return true
 			})
@@ -1428,7 +1478,7 @@ func (p *GoProg) propagateNewLocals() {
 					}
 					// a variable whose address is taken somewhere can be written by any call that was handed a reference
 					if addrTaken[ro] {
-						for _, a := range pathAsg["<call>"] {
+						for _, a := range append(append([]asg{}, pathAsg["<call>"]...), pathAsg["<callelem>"]...) {
 							if blocked(a) {
 								okAll = false
 							}
@@ -1436,7 +1486,7 @@ func (p *GoProg) propagateNewLocals() {
 					}
 				}
 				for pth, as2 := range pathAsg {
-					rel := pth == "<call>" && readsMem
+					rel := pth == "<call>" && readsMem || pth == "<callelem>" && readsElem
 					for _, rp := range readPaths {
 						if pth == rp || strings.HasPrefix(rp, pth+".") || strings.HasPrefix(pth, rp+".") || strings.HasPrefix(pth, rp+"[") {
 							rel = true
